@@ -129,7 +129,8 @@ def gen_sequence(r, n_ops):
         dyn = [(f'fuzzy("{w}")', f'fuzzy("{w}", 0.95)'), (f'fuzzy("{w}", 0.5)', f'fuzzy("{w}", 1.0)'), (f'fuzzy("{w}X", 0.6)', f'fuzzy("{w}X", 0.99)'),
                ('split(" ", 0)', 'split(" ", 1)'), ('substring(0, 3)', 'substring(1, 3)'), (f'extract("({w})")', f'extract("({w}).*")'),
                ('round(amount, 0)', 'round(amount, 1)'), (f'regex_replace(description, "{w}", "a")', f'regex_replace(description, "{w}", "b")'),
-               (f'fuzzy(description, "{w}", 0.3)', f'fuzzy(description, "{w}", 0.97)')]
+               (f'fuzzy(description, "{w}", 0.3)', f'fuzzy(description, "{w}", 0.97)'),
+               ('date >= "2025-01-01"', 'date >= "2025-01-01" and month >= 1'), ('"2024-06-30" < date', 'date > "2024-06-30"')]
         if r.random() < 0.5:
             pair = r.choice(dyn)
     names = sorted(files)
@@ -180,6 +181,30 @@ def gen_sequence(r, n_ops):
     return ops
 
 
+def cache_invariant_failures():
+    """The process-wide caches hold what parsing / compiling their key gives (the invariant the Lean proof of history-independence
+    rests on): every cached tree equals a fresh parse of its key, every cached regex is its key compiled case-insensitively."""
+    import ast
+    import re
+    from tally import expr_parser as EP
+    fails = []
+    for key, tree in list(EP._expression_cache.items()):
+        held = ast.dump(tree)
+        del EP._expression_cache[key]
+        try:
+            fresh = ast.dump(EP.parse_expression(key))
+        except Exception as e:       # noqa
+            fresh = f'<{type(e).__name__}>'
+        if held != fresh:
+            fails.append({'class': 'cached-expression-differs-from-its-source', 'key': key, 'cached': held[:300], 'fresh_parse': fresh[:300]})
+            break
+    for key, rx in list(EP._regex_cache.items()):
+        if rx.pattern != key or not (rx.flags & re.IGNORECASE):
+            fails.append({'class': 'cached-regex-differs-from-its-source', 'key': key, 'cached': rx.pattern, 'flags': rx.flags})
+            break
+    return fails
+
+
 def run_sequence(ops, pr):
     """Returns (failures, model_case, labels) for one history."""
     from tally import merchant_utils as MU
@@ -188,7 +213,10 @@ def run_sequence(ops, pr):
     MU.clear_engine_cache()          # a new history starts from a fresh-process-like engine state
     state = {'rules': [], 'transforms': [], 'dir': tempfile.mkdtemp(prefix='tvhist_')}
     try:
-        return _run_sequence(ops, pr, state)
+        fails, labels = _run_sequence(ops, pr, state)
+        for cf in cache_invariant_failures():
+            fails.append(dict(cf, ops=ops))
+        return fails, labels
     finally:
         shutil.rmtree(state['dir'], ignore_errors=True)
 
@@ -249,6 +277,17 @@ def run(ctx):
             ce = json.loads(common.read(ctx.replay)).get('counterexample', {})
             if 'ops' in ce:
                 seqs = [ce['ops']]
+            elif 'sequence' in ce and 'file' in ce:
+                from tally import merchant_engine as ME
+                text = GR.render_rules(ce['file'])
+                eng = ME.parse_merchants(text, ce.get('mode', 'first_match'))
+                for tv in ce['sequence']:
+                    t = RC.txn_for_engine(RC.untxn(tv))
+                    got = RC.result_summary(eng.match(copy.deepcopy(t)))
+                    want = RC.result_summary(ME.parse_merchants(text, ce.get('mode', 'first_match')).match(copy.deepcopy(t)))
+                    if got != want:
+                        prop_fail.append(dict(ce, observed=got, required=want))
+                        break
         else:
             # corpus: the D7 witness first
             a = {'k': 'load', 'kind': 'rules', 'name': 'A', 'text': '[Uber]\nmatch: contains("UBER")\ncategory: FromRules\n'}
@@ -285,6 +324,22 @@ def run(ctx):
         pr.close()
         from tally import merchant_utils as MU
         MU.clear_engine_cache()
+    # engine-level history: one MerchantEngine classifies a run of near-duplicate lines, each answer against a freshly parsed engine
+    nbatch = 0
+    if not ctx.replay:
+        for i in range(120 if ctx.quick else 3000):
+            txn = GR.gen_txn(r)
+            f = GR.gen_rules_file(r, txn, n=r.choice([1, 2, 3, 4]), dup_names=(i % 3 == 0), let_twins=(i % 4 == 1))
+            f['transforms'] = []
+            try:
+                for pf in RC.oracle_batch(f, RC.txn_for_engine(txn), r.choice(['first_match', 'most_specific']), r):
+                    pf['class'] = 'history-dependent-engine'
+                    prop_fail.append(pf)
+            except Exception:       # noqa  (an escaping Python exception is C08's business)
+                pass
+            nbatch += 1
+        prop_fail.extend(cache_invariant_failures())
+    ctx.notes['engine_level_runs_of_near_duplicates'] = nbatch
     ctx.obligation('correspondence:cache state machine (which load an answer comes from) model-vs-implementation', 'correspondence',
                    not corr_fail, cases=len(seqs), error=json.dumps(corr_fail[0], default=str)[:1500] if corr_fail else None)
     ctx.cov['evaluations'] = nops
@@ -294,7 +349,8 @@ def run(ctx):
     ctx.cov['rule'] = ('operation sequences of length 3–12 over four rule files (two .rules, two legacy CSV, regenerated per sequence from '
                        'overlapping conditions) × classify / evaluate (incl. expression pairs that collide under mis-keyed caches) in one '
                        'process; every classify / evaluate answer compared with a child forked from a pristine interpreter that replayed only '
-                       'the last load; deep-copy frame checks. Non-trivial = at least two different files loaded and a classification in the sequence')
+                       'the last load; deep-copy frame checks; after every history the process-wide expression / regex caches are compared with a fresh '
+                       'parse / compile of their keys; one MerchantEngine over runs of near-duplicate lines vs freshly parsed engines. Non-trivial = at least two different files loaded and a classification in the sequence')
     ctx.sample({'ops': [{k: (v if k != 'text' else v[:60]) for k, v in o.items()} for o in seqs[0]]})
     if len(seqs) > 2:
         ctx.sample({'ops': [{k: (v if k != 'text' else v[:60]) for k, v in o.items()} for o in seqs[2][:5]]})
